@@ -13,10 +13,10 @@ EXTENDS WrapRel, TLC, Json, IOUtils
 
 Trace == ndJsonDeserialize(IOEnv.TRACE)
 
-VARIABLES l, inp, lines, failed
-vars == <<l, inp, lines, failed>>
+VARIABLES l, inp, cr, lines, failed
+vars == <<l, inp, cr, lines, failed>>
 
-Init == l = 1 /\ inp = <<>> /\ lines = <<>> /\ failed = FALSE
+Init == l = 1 /\ inp = <<>> /\ cr = <<>> /\ lines = <<>> /\ failed = FALSE
 
 Reject(e, why) ==
   /\ failed' = TRUE
@@ -27,17 +27,19 @@ Next ==
   /\ l' = l + 1
   /\ LET e == Trace[l] IN
      IF e.ev = "reset" THEN
-        /\ inp' = e.inp /\ lines' = <<>> /\ failed' = FALSE
+        /\ inp' = e.inp /\ cr' = e.carriers /\ lines' = <<>> /\ failed' = FALSE
      ELSE IF e.ev = "scan" THEN      \* every width is judged on its own
-        /\ inp' = inp /\ lines' = e.lines
-        /\ LET why == Why(inp, e.w, e.done, e.lines) IN
-           IF why = "" THEN failed' = FALSE ELSE Reject(e, why)
-     ELSE IF failed THEN UNCHANGED <<inp, lines, failed>>
+        /\ inp' = inp /\ cr' = cr /\ lines' = e.lines
+        /\ LET why0 == Why(inp, e.w, e.done, e.lines)
+               \* the scanner cut the space off an isolated accent and nothing else differs: recorded finding
+               why == IF why0 = "conserve" /\ cr # <<>> /\ ConservedCore(inp, e.lines, cr) THEN "conserve-carrier-space-cut" ELSE why0
+           IN IF why = "" THEN failed' = FALSE ELSE Reject(e, why)
+     ELSE IF failed THEN UNCHANGED <<inp, cr, lines, failed>>
      ELSE IF e.ev = "draw" THEN
-        /\ UNCHANGED <<inp, lines>>
+        /\ UNCHANGED <<inp, cr, lines>>
         /\ IF DrawOK(lines, e.rows, e.sw, e.sh) THEN UNCHANGED failed ELSE Reject(e, "draw")
      ELSE  \* panic, hang, anything else the oracle has no step for
-        /\ UNCHANGED <<inp, lines>>
+        /\ UNCHANGED <<inp, cr, lines>>
         /\ Reject(e, e.ev \o ":" \o e.in)
 
 Spec == Init /\ [][Next]_vars
